@@ -5,6 +5,7 @@ package props
 import (
 	"context"
 	"fmt"
+	"reflect"
 	"runtime"
 	"sort"
 	"strings"
@@ -20,6 +21,7 @@ import (
 	"verif/harness/pbt"
 
 	"github.com/google/badwolf/storage"
+	"github.com/google/badwolf/storage/memoization"
 	"github.com/google/badwolf/storage/memory"
 	"github.com/google/badwolf/triple"
 	"pgregory.net/rapid"
@@ -744,6 +746,11 @@ const c07WriteWait = 60 * time.Second
 func checkC07Channels(ctx *pbt.Ctx, c c09Case) error {
 	bg := context.Background()
 	st := memory.NewStore()
+	if len(c.Qs)%2 == 1 {
+		// the same discipline through the memoizing wrapper, which is a store too
+		st = memoization.New(st)
+		ctx.Label("through-memoizer")
+	}
 	g, _ := st.NewGraph(bg, "?g")
 	var all []*triple.Triple
 	for _, s := range c.U.Triples {
@@ -763,6 +770,9 @@ func checkC07Channels(ctx *pbt.Ctx, c c09Case) error {
 		}
 		if after := lo.String(); after != before {
 			return fmt.Errorf("%s modified the lookup options passed to it: %s -> %s", desc, before, after)
+		}
+		if fresh := q.Opt.build(); !reflect.DeepEqual(fresh, lo) {
+			return fmt.Errorf("%s modified the lookup options value passed to it (it no longer equals a value built the same way): %#v vs %#v", desc, *lo, *fresh)
 		}
 		if r.Err != nil {
 			ctx.Label("lookup-error")
